@@ -12,6 +12,7 @@ import re
 from fractions import Fraction
 
 from verif import core
+from verif import symb as sy
 from verif.tree import strip as strip_
 from verif.tree import walk, walk_fn, show, stmt_list, meth, strip
 
@@ -679,6 +680,79 @@ def run(chk):
                 chk.instance(r_pd, key, sample=dict(member=mem, default_measure=meas, keyword=kwname, item=it_, item_dimension=kdim, systems_that_differ=[d_[0] for d_ in diffs]))
                 if diffs:
                     chk.violation(r_pd, key, "%s::%s is constructed with measure::%s but assigned from item %s of %s, whose dimension is `%s`: in %s the factors differ (default / keyword = %s), so a target set in place (WELTARG, WCONHIST) or restored from a restart file has another SI value than the same number in %s" % (cls, mem, meas, it_, kwname, kdim, ", ".join(d_[0].upper() for d_ in diffs), ", ".join("%.6g" % d_[1] for d_ in diffs), kwname), ctor["file"], ln)
+
+    # ---- C02.vfpunits: the hand-composed factors of the VFP table axes
+    r_vf = chk.rule("C02.vfpunits", "VFPProdTable / VFPInjTable convert<Axis>ToSI and ALQDimension: the factor chosen for an axis type is the quotient its name says - rates (OIL, LIQ, WAT: liquid surface volume / time; GAS, GRAT: gas surface volume / time), ratios X over Y (WGR: liquid / gas, GOR and GLR, IGLR, TGLR: gas / liquid, OGR: liquid / gas), WOR and WCT and the types without a unit: 1 - with every local standing for the measure it is initialised from (a local called gas_surface_volume that is filled from measure::liquid_surface_volume makes the quotient 1 in every unit system)", floor=12)
+    vfx = chk.facts(["opm/input/eclipse/Schedule/VFPProdTable.cpp", "opm/input/eclipse/Schedule/VFPInjTable.cpp"])
+    Lq, Gs, Tm = syq = (sy.S("liquid_surface_volume"), sy.S("gas_surface_volume"), sy.S("time"))
+    WANT_VFP = {"FLO_OIL": sy.div(Lq, Tm), "FLO_LIQ": sy.div(Lq, Tm), "FLO_WAT": sy.div(Lq, Tm), "FLO_GAS": sy.div(Gs, Tm),
+                "WFR_WOR": sy.I(1), "WFR_WCT": sy.I(1), "WFR_WGR": sy.div(Lq, Gs),
+                "GFR_GOR": sy.div(Gs, Lq), "GFR_GLR": sy.div(Gs, Lq), "GFR_OGR": sy.div(Lq, Gs),
+                "ALQ_IGLR": sy.div(Gs, Lq), "ALQ_TGLR": sy.div(Gs, Lq), "ALQ_GRAT": sy.div(Gs, Tm), "ALQ_UNDEF": sy.I(1), "ALQ_PUMP": sy.I(1)}
+    n_vf = 0
+    for f in vfx.fns:
+        if not f.get("body") or not re.search(r"convert\w+ToSI|ALQDimension", f["n"]):
+            continue
+        sws = [n for n in walk(f["body"]) if n["k"] == "Switch"]
+        if len(sws) != 1:
+            continue
+        loc_meas = {}
+        facv = None
+        fac0 = None
+        for n in stmt_list(f["body"]):
+            if n["k"] == "Decl":
+                for v in n["vars"]:
+                    if isinstance(v.get("init"), dict):
+                        ms = [y["n"] for y in walk(v["init"]) if y["k"] == "Ref" and y.get("d") == "Enum" and "measure" in (y.get("q") or "")]
+                        if len(ms) == 1 and any(x["k"] == "MCall" and x.get("m") == "getSIScaling" for x in walk(v["init"])):
+                            loc_meas[v["n"]] = ms[0]
+                    if (v.get("t") or "") == "double" and v["n"] not in loc_meas:
+                        facv = v["n"]
+                        fac0 = show(v.get("init")) if isinstance(v.get("init"), dict) else None
+        if facv is None:
+            continue
+
+        def meas_term(m_):
+            return {"liquid_surface_rate": sy.div(Lq, Tm), "gas_surface_rate": sy.div(Gs, Tm)}.get(m_, sy.S(m_))
+
+        def leaf_v(e):
+            if e.get("k") == "Ref" and e.get("n") in loc_meas:
+                return meas_term(loc_meas[e["n"]])
+            if e.get("k") == "MCall" and e.get("m") == "getSIScaling":
+                ms_ = [y["n"] for y in walk(e) if y["k"] == "Ref" and y.get("d") == "Enum" and "measure" in (y.get("q") or "")]
+                if len(ms_) == 1:
+                    return meas_term(ms_[0])
+            return None
+        evv = sy.Eval(leaf_v, {facv})
+        pend = []
+        for st_ in sws[0]["body"]["c"]:
+            x = st_
+            while x.get("k") == "Case":
+                pend.append((strip(x["v"]).get("n"), x["l"]))
+                x = x.get("sub") or {}
+            if x.get("k") == "Bin" and x.get("asg") and x["op"] == "=" and strip(x["c"][0]).get("n") == facv:
+                t = evv.term(x["c"][1], {})
+                for lab, ln in pend:
+                    pend_done = (lab, t, ln)
+                    if lab in WANT_VFP:
+                        n_vf += 1
+                        key = "%s:%s" % (f["q"].split("::")[-2] + "::" + f["n"], lab)
+                        chk.instance(r_vf, key, sample=dict(function=f["q"], type=lab, factor=sy.show_term(t), locals=loc_meas))
+                        if t is None or not sy.same_ratio(t, WANT_VFP[lab]):
+                            chk.violation(r_vf, key, "%s: the factor for %s is %s (locals resolved to the measures they are initialised from: %s); required %s" % (f["q"], lab, sy.show_term(t), loc_meas, sy.show_term(WANT_VFP[lab])), f["file"], x["l"])
+                pend = []
+            elif x.get("k") == "Break":
+                for lab, ln in pend:
+                    if lab in WANT_VFP:
+                        n_vf += 1
+                        key = "%s:%s" % (f["q"].split("::")[-2] + "::" + f["n"], lab)
+                        ok1 = fac0 in ("1", "1.0") and WANT_VFP[lab] == sy.I(1)
+                        chk.instance(r_vf, key, sample=dict(function=f["q"], type=lab, factor="initial value %s" % fac0))
+                        if not ok1:
+                            chk.violation(r_vf, key, "%s: %s keeps the initial factor %s; required %s" % (f["q"], lab, fac0, sy.show_term(WANT_VFP[lab])), f["file"], ln)
+                pend = []
+            elif x.get("k") in ("Throw", "Return"):
+                pend = []
 
     # ---- output conversions
     r_io = chk.rule("C02.io", "convertFromSI / convertToSI of RestartValue and data::Solution are mirror images (from_si <-> to_si) and visit every entry", floor=4)
